@@ -104,6 +104,9 @@ func (k Keeper) RequestModuleService(
 		return err
 	}
 
+	// InitiateRequests and AddResponse have updated the stored context (batch
+	// counter, request/response counts, batch state): reload it before completing
+	requestContext, _ = k.GetRequestContext(ctx, reqContextID)
 	requestContext.State = types.COMPLETED
 	k.SetRequestContext(ctx, reqContextID, requestContext)
 
